@@ -15,7 +15,17 @@ CONTEXTS = ('return', 'assign', 'expr', 'if', 'try', 'with', 'listcomp', 'genexp
             'decoy-arg', 'decoy-kw', 'decoy-star',
             'nested-shadow-kw', 'nested-shadow-kw-posonly', 'nested-shadow-va-posonly',
             'nested-shadow-kw-kwonly', 'nested-shadow-va-kwonly', 'nested-shadow-kw-varkw', 'nested-shadow-va-vararg',
-            'lambda-shadow-kw-kwonly', 'lambda-shadow-va')
+            'lambda-shadow-kw-kwonly', 'lambda-shadow-va',
+            'except-handler', 'try-else', 'finally', 'for-body', 'while-body', 'match-case', 'ternary', 'with-as')
+# further statement contexts given as a template around the call (one call site each)
+TEMPLATES = {'except-handler': 'try:\n    raise ValueError()\nexcept ValueError as _exc:\n    return %s',
+             'try-else': 'try:\n    pass\nexcept ValueError:\n    raise\nelse:\n    return %s',
+             'finally': 'try:\n    pass\nfinally:\n    return %s',
+             'for-body': 'for _i in (0,):\n    return %s',
+             'while-body': 'while BR[0]:\n    return %s',
+             'match-case': 'match 0:\n    case _:\n        return %s',
+             'ternary': 'return %s if BR[0] else None',
+             'with-as': 'with CM() as _cm:\n    return %s'}
 # nested defs / lambdas whose own parameter shadows a star of the wrapper: the call then forwards a different variable
 # (star shadowed, body template around the call)
 SHADOWS = {'nested-shadow-kw': ('vk', 'def _inner(kwargs):\n    return %s\nreturn _inner({})'),
@@ -364,6 +374,8 @@ def assemble(p, ospec, cspec, k, names, va_form, vk_form, route, context, taint,
         body = 'return ident(*[%s])' % call
     elif context in SHADOWS:
         body = SHADOWS[context][1] % call
+    elif context in TEMPLATES:
+        body = TEMPLATES[context] % call
     else:
         raise AssertionError(context)
 
